@@ -99,6 +99,7 @@ func (g *Gen) doCall(cc *ssa.CallCommon, pos token.Pos, name string) []string {
 				}
 			}
 			k++
+			g.usedAxioms[fmtf("clausehit:%p", cl)] = true
 			env := g.pointEnv(g.st, g.cur, nil)
 			for i, a := range args {
 				env.vars[fmtf("arg%d", i)] = a
@@ -118,10 +119,49 @@ func (g *Gen) doCall(cc *ssa.CallCommon, pos token.Pos, name string) []string {
 		}
 	}
 
+	if g.fc != nil && g.inlineDepth == 0 {
+		for _, cl := range g.fc.Clauses {
+			if cl.Kind != "mark" {
+				continue
+			}
+			if cl.Call == "*" {
+				if containsStr(cl.Except, label) || containsStr(cl.Except, fmtf("%s#%d", label, n)) {
+					continue
+				}
+			} else if cl.Call != label && cl.Call != fmtf("%s#%d", label, n) {
+				continue
+			}
+			key := "L:pathflag." + cl.Label
+			if _, ok := g.keySort[key]; !ok {
+				g.errorf("%s: mark of undeclared pathflag %s", g.fnLabel(), cl.Label)
+				continue
+			}
+			g.usedAxioms[fmtf("clausehit:%p", cl)] = true
+			g.set(key, "true")
+		}
+	}
+
 	if g.callBlocks == nil {
 		g.callBlocks = map[string][]*ssa.BasicBlock{}
 	}
 	g.callBlocks[label] = append(g.callBlocks[label], g.cur)
+
+	if mc, ok := cc.Value.(*ssa.MakeClosure); ok {
+		// a literal called on the spot may write the local cells it captures
+		for _, b := range mc.Bindings {
+			if a, ok := b.(*ssa.Alloc); ok && !g.escape[a] {
+				g.locOf(a)
+				prefix := "L:" + a.Name() + "."
+				hk := map[string]bool{}
+				for k := range g.keySort {
+					if strings.HasPrefix(k, prefix) {
+						hk[k] = true
+					}
+				}
+				g.havocKeys(hk)
+			}
+		}
+	}
 
 	fc := g.c.contracts[label]
 	callee := cc.StaticCallee()
@@ -633,6 +673,29 @@ func (g *Gen) runDefers(in *ssa.RunDefers) {
 			g.havocAll()
 		}
 	}
+}
+
+// recoversAll: the deferred call is a function literal whose entry block calls recover(), so
+// every panic raised after the defer statement is stopped in this frame.
+func recoversAll(d *ssa.Defer) bool {
+	var fn *ssa.Function
+	switch v := d.Call.Value.(type) {
+	case *ssa.MakeClosure:
+		fn, _ = v.Fn.(*ssa.Function)
+	case *ssa.Function:
+		fn = v
+	}
+	if fn == nil || len(fn.Blocks) == 0 {
+		return false
+	}
+	for _, in := range fn.Blocks[0].Instrs {
+		if c, ok := in.(*ssa.Call); ok {
+			if b, ok := c.Call.Value.(*ssa.Builtin); ok && b.Name() == "recover" {
+				return true
+			}
+		}
+	}
+	return false
 }
 
 // ---------- axioms from the spec files ----------
